@@ -272,7 +272,7 @@ func summaryTrueDeep(fn *ssa.Function, depth int) []string {
 	sets := [][]string{}
 	for _, b := range fn.Blocks {
 		ret, ok := b.Instrs[len(b.Instrs)-1].(*ssa.Return)
-		if !ok || len(ret.Results) == 0 {
+		if !ok || len(ret.Results) == 0 || deadRecover(b) {
 			continue
 		}
 		collectReturnGuards(RetResults(ret)[0], b, nil, &sets, depth, 4)
